@@ -198,6 +198,39 @@ CLAIMED["C12"] = (
     "DESIGN.md §4 C12",
 )
 
+CLAIMED["C15"] = (
+    "For every built-in check and every target 3.6…3.13 refurb is RUN on the check's documented and test idioms (translator by "
+    "execution, cached by source hash) and a kernel-checked table shows: every API/syntax a proposed replacement introduces is listed "
+    "in a committed feature->version table (no silent unknowns) and is not newer than the target (gate_ge_feature — a theorem since the "
+    "FURB178 repair); each check's reporting pattern over the targets is a threshold step, so raising the target never removes a "
+    "diagnostic (step_function, monotone); a changed message is the newer spelling (variant_switch, FURB121). General lemmas about "
+    "threshold gates (gate_sound, gate_too_low_is_unsound, gate_monotone) lift this to every target version. The oracle re-checks every "
+    "diagnostic of every idiom file through the CLI flag, pyproject and a Settings object for too-new features, lost diagnostics and "
+    "disagreement between the three spellings of the target.",
+    COMMON_NOTE
+    + "Trusted: Model/Introduced.lean (hand-committed from the docs; >=3.9 API and syntax rows re-validated against mypy's typeshed and "
+    "parser each run) and the message scanner (tokens new in the proposed fragment; FURB162's feature attached by check code). Behaviour "
+    "outside 3.6…3.13 is the clamped table. typeshed's effect on ungated checks between targets is exercised, not modelled.",
+    "generated sweep table by execution + decide +kernel against a committed reference table + threshold-gate lemmas + version-sweep CLI oracle",
+    "DESIGN.md §4 C15",
+)
+CLAIMED["C19"] = (
+    "For every non-empty duplicate-free selection of the 83 node types `refurb gen` offers, any prefix and any catalogue of codes in "
+    "use, Lean proves about the file gen.main() writes (byte-exact model of FILE_TEMPLATE/build_imports/get_next_error_id): it imports "
+    "each selected class exactly once from its defining module; its check signature passes the loader's validation and is registered "
+    "under exactly the selection; its case arm lists exactly those classes; the loader finds ErrorInfo with the chosen prefix and a code "
+    "that is unused, greater than all others of that prefix and 100 for a new prefix; it fires on a node iff the node is an instance of "
+    "a selected type; render is injective. 'Fires exactly once' is refuted by FuncItem selected with FuncDef/LambdaExpr (known finding) "
+    "and proved otherwise. Each run compares with the implementation: byte equality of every written file, ast, refurb.loader, CLI "
+    "--load/--explain runs (all singletons, sampled/all pairs), and a probe plugin on a corpus with every node kind.",
+    COMMON_NOTE
+    + "Trusted: the extractor for Generated/NodeTypes.lean. Not proved: the token-level reading is not Python's grammar (ast.parse runs on "
+    "every file written); fzf is stubbed; which nodes the visitor reaches is taken from the probe (ten offered types are never reached: "
+    "known finding); get_next_error_id sees only built-ins and entry-point plugins.",
+    "Lean 4 model + string-level proofs over List Char; decide +kernel over the generated table; byte-for-byte and CLI correspondence",
+    "DESIGN.md §4 C19",
+)
+
 NOT_YET = "check not built yet in this round (work in progress; see DESIGN.md §8 order of work)"
 
 
